@@ -92,6 +92,15 @@ def gen_cases(rng, tier):
                       'vec': fqeio.random_state(rng, norb, keys, density=0.8, amp=2),
                       'ham': {'cls': 'fop', 'rank': 0, 'entries': terms, 'e0': [0, 0], 'real': False},
                       't': rng.choice([1, 2, -3])})
+    # gather_nbody_spin_sectors on single operator strings: normal-ordered ones (what the compiler feeds it)
+    # and arbitrary ones (the model mirrors the code there too; Sort.gather_unsorted_refuted)
+    for k in range(60 if tier == 'quick' else 400):
+        nm = rng.randint(2, 8)
+        ln = rng.randint(0, 6)
+        ops = [[rng.randrange(nm), rng.randint(0, 1)] for _ in range(ln)]
+        if k % 3 != 2:
+            ops = sorted(ops, key=lambda o: (-o[1], -o[0]))       # creators first, each group descending
+        cases.append({'kind': 'gather', 'ops': ops, 'normal': k % 3 != 2})
     return cases
 
 
@@ -100,6 +109,12 @@ def run_impl(case, mode):
     import numpy
     import fqe
     from openfermion import FermionOperator, normal_ordered
+    if case['kind'] == 'gather':
+        from fqe.hamiltonians import hamiltonian_utils
+        op = FermionOperator(tuple((q, d) for q, d in case['ops']), 1.0)
+        coeff, phase, ab, bb = hamiltonian_utils.gather_nbody_spin_sectors(op)
+        return {'coeff': [complex(coeff).real, complex(coeff).imag], 'phase': int(phase),
+                'ab': [[int(q), int(d)] for q, d in ab], 'bb': [[int(q), int(d)] for q, d in bb]}
     norb = case['norb']
     op = FermionOperator()
     for ops, re, im in case['ham']['entries']:
@@ -155,6 +170,15 @@ def run_impl(case, mode):
 
 # ------------------------------------------------------------------ model
 def expected(model, case):
+    if case['kind'] == 'gather':
+        toks = [len(case['ops'])]
+        for q, d in case['ops']:
+            toks += [q, d]
+        t = model.q('GATHER', *toks)
+        na = int(t[1])
+        vals = [int(x) for x in t[2:]]
+        pairs = [[vals[2 * i], vals[2 * i + 1]] for i in range(len(vals) // 2)]
+        return {'phase': -1 if t[0] == '1' else 1, 'ab': pairs[:na], 'bb': pairs[na:]}
     e = c01.expected(model, case)
     # semantic predicates of the source polynomial (normal ordered by openfermion: harness side)
     from openfermion import FermionOperator, normal_ordered
@@ -181,6 +205,13 @@ def compare(case, got, exp, mode):
     if 'exc' in got or 'crash' in got:
         return ['build_hamiltonian raised %s: %s' % (got.get('exc', 'CRASH'), str({k: got[k] for k in got if k != 'tb'})[:300])]
     bad = []
+    if case['kind'] == 'gather':
+        if got['coeff'] != [1.0, 0.0]:
+            bad.append('gather_nbody_spin_sectors changed the coefficient: %s' % got['coeff'])
+        for k in ('phase', 'ab', 'bb'):
+            if got[k] != exp[k]:
+                bad.append('gather_nbody_spin_sectors(%s): %s = %s, model (Sort.gather) gives %s' % (case['ops'], k, got[k], exp[k]))
+        return bad
     d = got['desc']
     # --- truthful self-description
     if d['quadratic'] and exp['maxdeg'] > 2:
@@ -215,6 +246,8 @@ def compare(case, got, exp, mode):
 
 
 def classify(case, mode, bad, got, exp):
+    if case['kind'] == 'gather':
+        return None
     d = got.get('desc', {})
     if got.get('exc') == 'AssertionError' and exp.get('maxdeg') == 0 and exp.get('nterms_raw', 0) >= 3:
         return 'F-C06-constant-only-operator'
@@ -233,15 +266,21 @@ def classify(case, mode, bad, got, exp):
 
 
 def nontrivial(case, exp):
+    if case['kind'] == 'gather':
+        return len(exp['ab']) >= 1 and len(exp['bb']) >= 1 and len(case['ops']) >= 3
     return len(exp['out']) >= 2 and len(exp['degs']) >= 1 and exp['nterms_raw'] >= 3
 
 
 def case_class(case):
+    if case['kind'] == 'gather':
+        return 'gather/%s/len%d' % ('normal' if case['normal'] else 'any', len(case['ops']))
     return 'fop/%s/%s/norb%d' % (case['recipe'], case['mode'], case['norb'])
 
 
 def shrink(case):
     out = []
+    if case['kind'] == 'gather':
+        return [dict(case, ops=case['ops'][:k] + case['ops'][k + 1:]) for k in range(len(case['ops']))]
     ents = case['ham']['entries']
     # remove hermitian pairs
     for k in range(0, len(ents) - 1, 2):
@@ -254,11 +293,17 @@ def shrink(case):
     return out
 
 
-sample = c01.sample
+def sample(case):
+    return case if case['kind'] == 'gather' else c01.sample(case)
+
+
 THEOREM_FILES = ['P_C06']
 RULE = ('random Hermitian FermionOperators q+q† (number operators, hops incl. spin flips, products of number '
         'operators, n-body strings of degree 4-8 in arbitrary operator order, constants, duplicate terms; '
-        'coefficients multiples of 24) compiled for spin-conserving and spin-broken wavefunctions. '
-        'non-trivial: >= 3 source terms and >= 2 determinants in the result')
-NOT_PROVED = ['normal_order_sound / tomatrix_sound / gather_sound are not yet Coq theorems: the compiled object is '
-              'compared with the Fock-space action of the SOURCE expression (whose CAR are proved)']
+        'coefficients multiples of 24) compiled for spin-conserving and spin-broken wavefunctions; plus single operator '
+        'strings (normal-ordered and arbitrary, length 0-6, up to 8 modes) through gather_nbody_spin_sectors vs the '
+        'mirrored Sort.gather. non-trivial: >= 3 source terms and >= 2 determinants in the result / both spin blocks non-empty')
+NOT_PROVED = ['openfermion.normal_ordered and fermionops_tomatrix are not mirrored: the compiled object is compared with the '
+              'Fock-space action of the SOURCE expression (whose CAR are proved); proved: the swap-counting bubble sorts '
+              '(paritysort_list / reverse_bubble_list) with sign (-1)^swaps preserve the action of a string, and '
+              'gather_nbody_spin_sectors as coded is sound on normal-ordered input']
